@@ -192,6 +192,8 @@ def send_data(sock: socket.socket, data: bytes) -> None:
     else:
         # Socket is in non-blocking mode, use regular send loop.
         delays = __retrydelays()
+        if isinstance(data, memoryview):
+            data = data.cast("B")   # send() counts bytes; slicing a view of wider items by that number would skip data
         while data:
             try:
                 sent = sock.send(data)
